@@ -5,6 +5,7 @@ mod dialplan;
 mod addrbook;
 mod guard;
 mod derive;
+mod connid;
 mod notify;
 mod proto;
 
@@ -15,6 +16,7 @@ fn main() {
         "dialplan" => dialplan::main(&a),
         "cdial" => cdial::main(&a),
         "notify" => notify::main(&a),
+        "connid" => connid::main(&a),
         "derive" => derive::main(&a),
         "guard" => guard::main(&a),
         "addr" => addrbook::main(&a),
